@@ -241,7 +241,7 @@ func TypeName(t gdbi.DataType) string {
 
 // Outcome of running a traversal.
 type Outcome struct {
-	Err   string                   `json:"err,omitempty"`   // compile error (before any row)
+	Err   string                   `json:"err,omitempty"` // compile error (before any row)
 	Rows  []map[string]interface{} `json:"rows"`
 	Type  string                   `json:"type,omitempty"`
 	Marks map[string]string        `json:"marks,omitempty"`
